@@ -314,15 +314,12 @@ class Batch:
                            capture_output=True, text=True, env=dict(os.environ, CARGO_NET_OFFLINE="true"))
         if p.returncode != 0:
             raise RuntimeError("tvh_ir does not build:\n" + p.stderr[-3000:])
-        inp = "".join(json.dumps(c.request) + "\n" for c in todo)
-        p = subprocess.run([TVH_IR], input=inp, capture_output=True, text=True)
-        lines = p.stdout.split("\n")
-        if lines and lines[-1] == "":
-            lines.pop()
-        if p.returncode != 0 or len(lines) != len(todo):
-            raise RuntimeError("tvh_ir failed (rc %s, %d answers for %d cases): %s"
-                               % (p.returncode, len(lines), len(todo), p.stderr[-2000:]))
+        import vlib as _vlib
+        lines = _vlib.run_isolating(TVH_IR, [json.dumps(c.request) for c in todo])
         for c, line in zip(todo, lines):
+            if line is None:
+                c.error = "abort: the harness process died on this request (stack overflow)"
+                continue
             if line == "panic":
                 c.error = "harness panic"
                 continue
